@@ -186,7 +186,21 @@ func (g *cgen) generate() *ConcProgram {
 		w("\twg := new(sync.WaitGroup)\n")
 		g.feat("waitgroup")
 		if !spawnLoop || g.chance("addonce", 50) {
-			w("\twg.Add(%d)\n", nthreads)
+			// the delta as a literal, a converted variable, or an expression over one (seeded change
+			// C03-11: a binary-expression delta rebuilt from the wrong operand)
+			switch g.pick("addform", 5) {
+			case 0, 1:
+				w("\twg.Add(%d)\n", nthreads)
+			case 2:
+				g.feat("waitgroup-add-converted-variable")
+				w("\tnw := uint64(%d)\n\twg.Add(int(nw))\n", nthreads)
+			case 3:
+				g.feat("waitgroup-add-expression")
+				w("\tnw := uint64(%d)\n\twg.Add(int(nw) + 1)\n", nthreads-1)
+			default:
+				g.feat("waitgroup-add-expression")
+				w("\tnw := uint64(%d)\n\twg.Add(1 + int(nw))\n", nthreads-1)
+			}
 		} else {
 			spawnLoop = true
 		}
